@@ -18,6 +18,8 @@ for p in sorted(glob.glob("/verif/seeded/*/meta.json")):
             c = re.search(r"clause=([^|]*)", mm)
             mech = f" ({c.group(1)[:48]})" if c else ""
         res.append(f"{k}: {v['verdict']}{mech}")
+    if m.get("first_run"):
+        res.append("first run " + str(m["first_run"]).split(".")[0].split(";")[0][:60])
     note = " — rebased" if m.get("rebased") else ""
     note += " — obsolete (see meta.json)" if str(m.get("status", "")).startswith("obsolete") else ""
     rows.append(f"| {name}{note} | {what} | {needs} | {'; '.join(res)} |")
